@@ -9,7 +9,7 @@ from more_executors._impl.futures import f_return
 
 LAYERS = ("map", "flat_map", "retry", "throttle", "timeout", "poll", "cancel_on_shutdown")
 THREADED = {"retry": "RetryExecutor", "poll": "PollExecutor", "throttle": "ThrottleExecutor", "timeout": "TimeoutExecutor"}
-CALLABLES = ("function", "partial_kw", "partial_pos", "object", "object_func", "future_returning")
+CALLABLES = ("function", "partial_kw", "partial_pos", "object", "object_func", "falsy_object", "future_returning")
 ARGS = ((), (1,), (1, 2))
 
 
@@ -55,6 +55,14 @@ class CallObjFunc(CallObj):
         return "WRONG: .func called instead of the object"
 
 
+class FalsyCall(list):
+    """a callable object that is falsy (an empty list subclass)"""
+
+    def __call__(self, *a, **k):
+        self.log.append((a, tuple(sorted(k.items()))))
+        return ("falsy", a, tuple(sorted(k.items())))
+
+
 def make_callable(kind, log):
     def plain(*a, **k):
         log.append((a, tuple(sorted(k.items()))))
@@ -73,6 +81,10 @@ def make_callable(kind, log):
         return CallObj(log)
     if kind == "object_func":
         return CallObjFunc(log)
+    if kind == "falsy_object":
+        fc = FalsyCall()
+        fc.log = log
+        return fc
     if kind == "future_returning":
         return fut
 
@@ -135,7 +147,10 @@ def body(mc, p):
         d3 = d1.with_map(lambda v: ("derived2", v))
         derived = [d1, d2, d3]
     ex, fn = build("plain")
-    fb = bound(*p["args"], **kw)
+    try:
+        fb = bound(*p["args"], **kw)
+    except Exception as e:
+        fb = f_return(("calling the bound form raised", type(e).__name__, str(e)[:80]))
     fp = ex.submit(fn, *p["args"], **kw)
     mc.sleep(5)
     mc.observe(bound=snapshot(fb), plain=snapshot(fp), log_bound=brief(logs["bound"]), log_plain=brief(logs["plain"]),
@@ -183,12 +198,37 @@ def _nparams():
                         out.append(dict(layers=layers, explicit=explicit, bind_at=bind_at, base=base, flat=False))
                         if bind_at is not None and base == "sync":
                             out.append(dict(layers=layers, explicit=explicit, bind_at=bind_at, base=base, flat=True))
+    # a base executor without any name attribute (plain stdlib pool): layers get the default name
+    for n in (1, 2):
+        for layers in itertools.product(LAYERS, repeat=n):
+            if not any(l in THREADED for l in layers):
+                continue
+            out.append(dict(layers=layers, explicit=None, bind_at=0, base="stdlib", flat=False))
     return out
 
 
 def nbody(mc, p):
     layers = p["layers"]
     n0 = len(mc.s.threads)
+    if p["base"] == "stdlib":
+        from concurrent.futures import ThreadPoolExecutor
+        pool = ThreadPoolExecutor(max_workers=1)
+        cur = Executors.bind(pool, lambda: "v")
+        expected = []
+        for i, l in enumerate(layers):
+            cur = apply_layer(cur, l, i)
+            if l in THREADED:
+                expected.append("%s-default" % THREADED[l])
+        names = [t.name for t in mc.s.threads[n0:] if t.name.split("-")[0] in THREADED.values()]
+        mc.observe(names=tuple(names), expected=tuple(expected))
+        inner = getattr(cur, "_BoundCallable__executor", None)
+        try:
+            if inner is not None:
+                inner.shutdown(wait=False)
+        except Exception:
+            pass
+        pool.shutdown(wait=False)
+        return
     ex = Executors.sync(name="nb") if p["base"] == "sync" else Executors.thread_pool(max_workers=1, name="nb")
     execs = [ex]
     cur = ex
